@@ -21,8 +21,15 @@ import (
 	"time"
 )
 
+// repoDir is /repo; VERIF_REPO overrides it for experiments on scratch worktrees (mutant evaluation) only.
+var repoDir = func() string {
+	if r := os.Getenv("VERIF_REPO"); r != "" {
+		return r
+	}
+	return "/repo"
+}()
+
 const (
-	repoDir  = "/repo"
 	verifDir = "/verif"
 	goBin    = "/opt/veriftools/go1.26.8/bin/go"
 )
@@ -119,6 +126,13 @@ func init() {
 	c18.Rule = "one evaluation = one run of up to 12 generated names (segments a, b, '..', '.', empty, the root's own name, sibling names extending the root's name; leading/trailing separators) against one component (fstree Get/Put/Delete/Query, DirStructure EnsureAbsPath/EnsureRelPath/EnsureRelDir, ScanStorage root, zip unpacking entry) with the root at depth 1-4 of a sandbox containing sibling directories; oracle: every logged file-system call resolves inside the root or the temp location, a before/after snapshot of everything outside the root is identical, escaping names are rejected; distinct = distinct name set; non-trivial = at least one name escapes the root lexically"
 	c18.Assume = []string{"symbolic links inside the root that point outside are not generated (the statement lists parent references, absolute paths and sibling prefixes)"}
 	props["C18"] = &c18
+	props["C12"] = &propCfg{
+		Harness: "apisim", Pkgs: "log,modules,config,api,rng", QuickRuns: 8000, ThoroughRuns: 300000, RunsPerProc: 200,
+		QuickWall: 75 * time.Second, ThoroughWall: 15 * time.Minute, Level: "exploration",
+		Rule: "one evaluation = one simulated history of 3-18 steps: configure API keys (read/write permission, expiry), switch development mode, advance the clock (session TTL, key expiry), clean sessions, and requests to mainHandler.ServeHTTP with every method (incl. OPTIONS with/without preflight header, PATCH), a handler declaring any of 9 read/write permissions (NotFound, Dynamic, NotSupported, Anyone, User, Admin, Self, out of range), credentials (none, Bearer/Basic key valid/expired/unknown/0-3 bytes, malformed Authorization, session cookie valid/expired/unknown, scripted authenticator token/nil/error/denied with valid and invalid permissions, bridge address) and Origin headers; every response is compared with an independent decision function; distinct = distinct hash of the request/response sequence; non-trivial = at least one request was sent",
+		Real: []string{"portbase/api router, authentication, request context (instrumented)", "portbase/config (real option registry and getters)", "portbase/modules (RunWorker, microtasks), portbase/log"},
+		Stub: []string{"rng entropy feeders (generator seeded deterministically)", "no sockets: httptest recorder + mainHandler.ServeHTTP", "config-change event hook replaced by a direct call of the key import"},
+	}
 	props["C20"] = &propCfg{
 		Harness: "logsim", Pkgs: "log", QuickRuns: 4000, ThoroughRuns: 150000, RunsPerProc: 100,
 		QuickWall: 70 * time.Second, ThoroughWall: 15 * time.Minute, Level: "exploration",
